@@ -45,13 +45,13 @@ def run_history(ctx, prop, c, script, reads, mods, build=gs.build, tag="history"
         wit = lambda: {"gen": c, "history": script[:step + 1], "tag": tag}  # noqa
         if kind == "mod":
             name, fn = mods[idx % len(mods)](seed)
-            ok, _ = guarded(ctx, f"{prop}.no-exception", lambda: fn(s), wit, key=f"{prop}:{tag}:mod-raised:{name}")
+            ok, _ = guarded(ctx, f"{prop}.no-exception", lambda: fn(s), wit, key=f"{prop}:{tag}:mod-raised:{name.split(chr(40))[0]}")
             if ok:
                 applied.append((name, fn))
                 ctx.count(f"{prop}.history_mod:{name}")
             continue
         name, fn = reads[idx % len(reads)](seed)
-        ok, got = guarded(ctx, f"{prop}.no-exception", lambda: fn(s), wit, key=f"{prop}:{tag}:read-raised:{name}")
+        ok, got = guarded(ctx, f"{prop}.no-exception", lambda: fn(s), wit, key=f"{prop}:{tag}:read-raised:{name.split(chr(40))[0]}")
         if not ok:
             continue
         ref = build(c)
